@@ -832,9 +832,12 @@ func judgeHistory(o runOutcome) vdrv.Verdict {
 		}
 		if b.firstStart < cl.T0 {
 			joined++
-		} else if v < cl.VerAt {
-			return fail(cl.Ctx, "Rebuild #%d was issued when the store was at version %d and started build g=%d itself, but that build used version %d", cl.ID, cl.VerAt, g, v)
 		}
+		// (No freshness rule of the form "a call that started its own build sees the store version current at
+		// the call": which call started a build is not observable — the first OnStart callback may run
+		// milliseconds after the build was started by an earlier call — and stamped soundly (entry of OnStart
+		// before the version snapshot) the rule would only restate that the harness's own counter is monotonic.
+		// Staleness is covered by: no Rebuild returns a build that had been delivered before it was issued.)
 		spec := &c.Ctx[cl.Ctx]
 		isCancel := false
 		for _, e := range r.Errors {
@@ -1165,7 +1168,7 @@ func replayAPI(raw json.RawMessage) vdrv.Verdict {
 }
 
 func runAPI(t *testing.T) {
-	H.Rule("api", "rapid: 1–2 shared api.Context objects whose modules (2–7, drawn import DAG) all come from a versioned in-memory store through plugins (1–3 per context, OnStart/OnEnd on each, OnResolve/OnLoad in namespace `mem` on the first; drawn 0–5 ms blocking per callback, OnLoad failing in drawn generations, OnEnd failing in drawn generations, re-entrant build.Resolve from inside OnResolve); 2–6 goroutines run drawn sequences of Rebuild/Cancel/Dispose/Watch/Serve/HTTP GET/sleep with drawn gaps while an editor goroutine bumps the store version (and touches the watched trigger file); GOMAXPROCS drawn from {1,2,3,4,8}; the process runs under the race detector. Judged from a timestamped event log after all goroutines joined (60 s bound ⇒ deadlock + goroutine dump): callback order within a build (all OnStart end before the first OnResolve/OnLoad; each (path, namespace) loaded once; OnEnd once each, sequential, in registration order, after loads, stopping at the first failure; OnEnd always runs), builds of one context never overlap, every Rebuild result went through OnEnd and carries one generation whose modules all have the store version snapshotted at that generation's OnStart and equals byte-for-byte a quiet one-shot build of that version, a Rebuild that started its own build uses a store version ≥ the one current when it was issued, no Rebuild returns a build another call had already delivered before it was issued, Cancel and Dispose return only after the last OnEnd of every build that had started before the call, no callback begins after Dispose returned, errors are only cancellation or the failures the case asked for. Non-trivial = calls of ≥2 goroutines overlapped in time on one context and a Cancel or Dispose overlapped a build.")
+	H.Rule("api", "rapid: 1–2 shared api.Context objects whose modules (2–7, drawn import DAG) all come from a versioned in-memory store through plugins (1–3 per context, OnStart/OnEnd on each, OnResolve/OnLoad in namespace `mem` on the first; drawn 0–5 ms blocking per callback, OnLoad failing in drawn generations, OnEnd failing in drawn generations, re-entrant build.Resolve from inside OnResolve); 2–6 goroutines run drawn sequences of Rebuild/Cancel/Dispose/Watch/Serve/HTTP GET/sleep with drawn gaps while an editor goroutine bumps the store version (and touches the watched trigger file); GOMAXPROCS drawn from {1,2,3,4,8}; the process runs under the race detector. Judged from a timestamped event log after all goroutines joined (60 s bound ⇒ deadlock + goroutine dump): callback order within a build (all OnStart end before the first OnResolve/OnLoad; each (path, namespace) loaded once; OnEnd once each, sequential, in registration order, after loads, stopping at the first failure; OnEnd always runs), builds of one context never overlap, every Rebuild result went through OnEnd and carries one generation whose modules all have the store version snapshotted at that generation's OnStart and equals byte-for-byte a quiet one-shot build of that version, no Rebuild returns a build another call had already delivered before it was issued, Cancel and Dispose return only after the last OnEnd of every build that had started before the call, no callback begins after Dispose returned, errors are only cancellation or the failures the case asked for. Non-trivial = calls of ≥2 goroutines overlapped in time on one context and a Cancel or Dispose overlapped a build.")
 	H.SetupRapid("api", H.N(900, 24000))
 	rapid.Check(t, func(rt *rapid.T) {
 		c := genAPICase(rt)
